@@ -242,10 +242,12 @@ def clearCheckpoint (L : Lexer) : Lexer := { L with cp := none }
 /-- keep the oldest `n` elements of a newest-first list (`Vec::truncate(n)`) -/
 def truncR {α} (l : List α) (n : Nat) : List α := l.drop (l.length - n)
 
+/-- `rollback` (the error list is truncated too since the `fix:` for rolled-back diagnostics; the
+prepared-error register — a Rust local that never outlives a dispatcher call — is dropped) -/
 def rollback (L : Lexer) : Lexer :=
   match L.cp with
   | some c =>
-    { L with cp := none, cur := c.cur, tok := c.tok,
+    { L with cp := none, cur := c.cur, tok := c.tok, errReg := none,
              modesR := truncR L.modesR c.modeLen,
              toksR := truncR L.toksR c.nToks,
              linesR := truncR L.linesR c.nLines,
